@@ -207,7 +207,12 @@ func sProgram(s []byte, cf, of []byte) string {
 	sb.WriteString("  av = ARGV[1]; ARGV[1] = \"\"\n") // an empty operand is skipped: getline reads standard input
 	sb.WriteString("  getline k6\n")
 	sb.WriteString("  getline; fld = $1\n")
-	sb.WriteString("  pr(\"field\", $1); pr(\"dollar0\", $0); pr(\"fieldcopy\", fld)\n")
+	if len(s) > 0 {
+		sb.WriteString("  pr(\"field\", $1); pr(\"fieldcopy\", fld)\n")
+	}
+	// (for the empty record $1 does not exist; POSIX makes it the uninitialized value, GoAWK an empty
+	// string: not what this property is about, so it is not probed)
+	sb.WriteString("  pr(\"dollar0\", $0)\n")
 	sb.WriteString("  getline gv; pr(\"getlinevar\", gv)\n")
 	sb.WriteString("  getline l5; n = split(l5, arr, \",\"); if (n > 0) pr(\"split\", arr[1])\n")
 	sb.WriteString("  pr(\"argv\", av); pr(\"environ\", ENVIRON[\"V\"]); pr(\"dashv\", vv)\n")
@@ -463,7 +468,7 @@ func replayS(c *Case) hx.Outcome {
 	}
 	want := len(provs)
 	if len(s) == 0 {
-		want-- // split("") has no element
+		want -= 3 // split("") has no element; $1 of the empty record does not exist
 	}
 	if len(lines) != want {
 		return hx.Fail("C05/probe-output/"+c.Cls, fmt.Sprintf("%d probe lines, expected %d", len(lines), want), nil, string(res.Stdout), prog)
